@@ -359,6 +359,8 @@ def run_supervised(sb, argv, plan=None, cwd=None, tag="r", keep_log=True):
     _counter[0] += 1
     pfx = os.path.join(sb.aux, "%s%d" % (tag, _counter[0]))
     planf, logf, sumf, outf, errf = (pfx + s for s in (".plan", ".ev", ".sum", ".out", ".err"))
+    # the process's stdout / stderr may be pointed somewhere else (e.g. /dev/full: every write fails with ENOSPC)
+    outf, errf = plan.get("stdout_to", outf), plan.get("stderr_to", errf)
     with open(planf, "w") as f:
         f.write(plan_text(cwd, plan, outf, errf))
     cmd = [b(XSUP), b"--plan", b(planf), b"--log", b(logf), b"--summary", b(sumf), b"--"] + [b(a) for a in argv]
@@ -371,6 +373,8 @@ def run_supervised(sb, argv, plan=None, cwd=None, tag="r", keep_log=True):
     with open(sumf, encoding="latin-1") as f:
         summary = json.load(f)
     def rd(p):
+        if p in (plan.get("stdout_to"), plan.get("stderr_to")):
+            return ""          # redirected away (a device such as /dev/full reads as endless zeros)
         try:
             with open(p, "rb") as f:
                 return f.read().decode("utf-8", "replace")
